@@ -1188,9 +1188,19 @@ def case_decode(case):
         ref = RW.tridonic_decode(pkt)
         if rtype == 0x74:
             return []
-        ex = _call(rig(driver).d.extract, pkt)
+        d_ = rig(driver).d
+        # the driver's public `debug` switch (frame logging) on for every other case: what a packet denotes is the same
+        dbg = bool(case.get("debug", (origin + rtype + f4) % 2))
+        old_dbg = getattr(d_, "debug", None)
+        try:
+            if old_dbg is not None:
+                d_.debug = dbg
+            ex = _call(d_.extract, pkt)
+        finally:
+            if old_dbg is not None:
+                d_.debug = old_dbg
         got = norm_value(ex[1]) if ex[0] == "ok" else ("raised", type(ex[1]).__name__)
-        where = "legacy-tridonic report origin %#x type %#x frame %#x" % (origin, rtype, f4)
+        where = "legacy-tridonic report origin %#x type %#x frame %#x%s" % (origin, rtype, f4, " (debug on)" if dbg and old_dbg is not None else "")
         if got == ("none",):
             if ref["origin"] == "own" and ref["kind"] in ("backward", "no-answer", "framing-error"):
                 return [("C18:legacy-tridonic:decode:%s-ignored" % ref["kind"],
